@@ -16,7 +16,9 @@ RULE = ("inputs = (a) full product of the per-position token alphabet (accepted 
         "insert/append) of each type's skeleton x value representatives, plus every member of every closed vocabulary "
         "(and its one-character near-misses / glued pairs) substituted at its position, plain and type-forced. distinct = distinct input strings "
         "(exact, content-hash sharding); non-trivial = input is typed by the reference, or is within one edit of a "
-        "typed string, or carries a uri prefix / control character (i.e. everything except plain far-off junk).")
+        "typed string, or carries a uri prefix / control character (i.e. everything except plain far-off junk). (c) ordered "
+        "pairs of spellings that differ by an empty or absent part (s, s+':', ':'+s, type+':', s+'/', ...) asked one after the "
+        "other from cold caches.")
 ASSUMPTIONS = ["inputs contain no '?' (query handling is C04)", "reference typing = per-segment re.fullmatch against the "
                "raw configuration after reference extrapolation/pattern injection (mc/ref/model.py)"]
 
@@ -282,6 +284,44 @@ def check_case(ref, s):
     return out, cls
 
 
+def want_of(ref, s):
+    exp = expected(ref, s)
+    if exp[0] == "multi":
+        return None
+    _, t, d, string = exp
+    if t is None:
+        return {"type": "", "fields": [], "str": string, "bool": False, "len": 0}
+    return {"type": t, "fields": list(d.items()), "str": string, "bool": True, "len": len(d)}
+
+
+def pair_cases(ref, reps):
+    """(a, b): two spellings that differ by an empty or absent part (a trailing / leading colon, an empty type, an empty
+    string after a type) - asked one after the other in one process, in both orders, each time from cold caches."""
+    seen = set()
+    for typ, segs in skeletons(ref, reps):
+        s = "/".join(segs)
+        for v in (s + ":", ":" + s, typ + ":" + s, typ + ":", s + "/", "/" + s, s + ":" + typ):
+            for a, b in ((s, v), (v, s)):
+                if (a, b) not in seen:
+                    seen.add((a, b))
+                    yield a, b
+
+
+def check_pair(ref, a, b):
+    from mc import env
+    env.reset()
+    try:
+        observe(a)
+        o = observe(b)
+    except Exception as e:  # noqa
+        return [dict(signature=f"exception/{type(e).__name__}/pair", observed=repr(e), expected="no exception")]
+    w = want_of(ref, b)
+    env.reset()
+    if w is not None and o != w:
+        return [dict(signature="answer-depends-on-the-spelling-asked-before", observed=[a, o], expected=w)]
+    return []
+
+
 # ------------------------------------------------------------------------------------------------ plumbing
 def plan(tier, seed):
     n = 16 if tier == "thorough" else 8
@@ -312,6 +352,13 @@ def run_shard(sh):
             rec.case(cls, nontrivial, sample=s)
             for v in viols:
                 rec.violation(v["signature"], "str", s, v["observed"], v["expected"])
+    for a, b in pair_cases(ref, p["reps"]):
+        if not rec.mine("pair|" + a + "|" + b):
+            continue
+        viols = check_pair(ref, a, b)
+        rec.case("pair", True, sample=[a, b])
+        for v in viols:
+            rec.violation(v["signature"], "pair", [a, b], v["observed"], v["expected"])
     rec.extra = {"generated": gen}
     return rec.result()
 
@@ -328,6 +375,8 @@ def _near(ref, s):
 
 def replay_case(kind, case):
     ref = _ctx()
+    if kind == "pair":
+        return check_pair(ref, case[0], case[1])
     viols, _ = check_case(ref, case)
     return viols
 
